@@ -96,6 +96,7 @@ structure St where
   err : Option Err := none    -- c.in.err, sticky
   out : Bytes := []           -- everything Conn.Read has returned so far
   empties : Nat := 0          -- emptyRecordCount of the current Read call
+  macFailed : Bool := false   -- decrypt failed on some record: bad_record_mac was the first alert written to the peer
 
 /-- the part of readRecord after decrypt: `data = b.data[b.off:]`, `err0` = c.in.err at that point.
     Result: new c.in.err, new c.input, and whether the code does `goto Again`. -/
@@ -136,7 +137,7 @@ def readRecord (dec : Nat → UInt8 → Bytes → Dec) (vers : UInt8 × UInt8) :
         | .fail x =>
           -- c.in.setErrorLocked(c.sendAlert(alertBadRecordMAC)); b.off = 0: data = raw block
           let r := dispatch t (List.replicate (x + 5) 0) (some (.localAlert 20))
-          let st' := { st with err := r.1, input := r.2.1 }
+          let st' := { st with err := r.1, input := r.2.1, macFailed := true }
           if r.2.2 then readRecord dec vers fuel { st' with raw := rest.drop n } else st'
     | _ => { st with err := some .eof }      -- io.EOF while reading the header (0..4 bytes left)
 
@@ -160,6 +161,19 @@ def serve (dec : Nat → UInt8 → Bytes → Dec) (vers : UInt8 × UInt8) : Nat 
 /-- run a whole incoming byte stream `w` (followed by EOF) -/
 def runStream (dec : Nat → UInt8 → Bytes → Dec) (vers : UInt8 × UInt8) (w : Bytes) : St :=
   serve dec vers (w.length + 1) { raw := w }
+
+/-- The first FATAL alert the server has written to the peer when the run ends (what the peer's `Read` reports as
+    "remote error"): `sendAlert` precedes every locally detected failure — protocol_version(70) for a wrong record
+    version, record_overflow(22) for an oversized record or plaintext, bad_record_mac(20) FIRST whenever decrypt failed
+    (even if a later alert replaces the error kept in c.in.err), unexpected_message(10) otherwise; no_renegotiation(100)
+    is sent at warning level (the peer drops it); nothing is sent on EOF, close_notify or a received fatal alert. -/
+def alertSent (st : St) : Option Nat :=
+  if st.macFailed then some 20
+  else match st.err with
+    | some .badvers => some 70
+    | some .oversize => some 22
+    | some (.localAlert a) => if a = 100 then none else some a
+    | _ => none
 
 /-- One more `Conn.Read` on a connection state (what the harness does four more times after the first error):
       for c.input == nil && c.in.err == nil { readRecord }        -- not entered once c.in.err is set
